@@ -43,6 +43,12 @@ claims.update({
  "C18": dict(level="proof", engine="E1 absint (ENUM with bounded unrolling + induction)", technique="static analysis: path enumeration of Random with symbolic entropy blocks and read errors, loop unrolled 3 times, induction justified by state independence observed on the paths",
     text="On every enumerated path: exit in iteration k assumes blocks 1..k-1 are 0 mod n and block k is not, and stores Montgomery(Bk mod n); a failed read panics with nothing stored; reads are 32 bytes from crypto/rand.Reader; Fiat's <n precondition is proven from the guard-refined interval (2^256<2n).",
     note=PM+" The step from 3 unrolled iterations to all iterations is an induction stated in the evidence (the stored value mentions only the current block).", ref="3 C18"),
+ "C03": dict(level="proof", engine="E1 absint (ENUM + D-int + D-poly)", technique="static analysis: path enumeration of all six decoders on symbolic inputs; guard literals (length, prefix, X<p, Y<p, squareness, curve equation) evaluated per path against the SEC1 acceptance table",
+    text="Every path of Decode, DecodeCompressed, DecodeUncompressed, DecodeCoordinates, DecodeHex and UnmarshalBinary is enumerated with a symbolic input and an arbitrary prior receiver. An accepting path must make all literals of one allowed form true (no missing check) and set the receiver to exactly the encoded point (root parity = prefix bit); a rejecting path must falsify every allowed form (no over-rejection) and leave the receiver unchanged; no path may panic. The range checks are recognised as the borrow of the 4-limb subtraction against the code's own limbs of p, so a wrong limb or a dropped check changes a literal.",
+    note=PM+" RFC 9380 sqrt_ratio is the oracle for 'x^3+7 is a square'.", ref="3 C03"),
+ "C04": dict(level="proof", engine="E1 absint (D-poly + D-int + constant-folded Decode)", technique="static analysis: symbolic byte-layout of the encoders on (X:Y:Z) vs the SEC1 normal form; scaling lemma on the normal form; identity outputs constant-folded through Decode",
+    text="Encode/MarshalBinary/Hex/XCoordinate/EncodeUncompressed are interpreted on a symbolic projective point: bytes and length must be the SEC1 layout of the affine normal form (x·inv0 z, ite(z=0,1,y·inv0 z)), for every (X:Y:Z); the normal form is proven invariant under non-zero scaling; each encoder's constant output for the identity is fed through the Decode analysis and must be accepted as the identity. Non-identity round trips then follow from C03's success state and the prefix/parity polarity checked here.",
+    note=PM, ref="3 C04"),
 })
 pending = {}
 ids = ["C%02d" % i for i in range(1, 20)]
